@@ -18,16 +18,18 @@ import clirun
 from lib import cmd, Sym, import_impl, outcome
 
 META = dict(
-    technique='Coq theorems on -T splitting and chain order + three-way differential: CLI (in-process cli(mode=formula) and child processes) vs documented library call vs extracted family models',
+    technique='Coq theorems on a whole-program model argv -> bytes of cnfgen (sub-command and option parsing, graph arguments, family models, -T chains, writers, header) + byte-for-byte comparison with the real tool + three-way differential: CLI vs documented library call vs extracted family models + seeded library sessions',
     category='proof',
-    text='Theorems: split_T is a right inverse of joining with -T for every argv and its chunks contain no -T (so every transformation sees '
-         'exactly its own arguments, in order). Tied to the code by comparing split_T with the chunks the tools build, and by a differential run: '
-         'for every sub-command and option subset the formula built by the command line equals (variables, names, clauses in order) the '
-         'documented library generator applied to the same numbers and the same graphs (graphs passed through files, including save), and a '
-         'chain of -T options equals applying the transformation functions left to right. PARTIAL: argparse itself is not modelled; option '
-         'handling is covered by the differential run only.',
-    note='Trusted: the table in harness/c17.py that pairs each command line with its documented library call (written from the documentation); '
-         'Coq kernel, extraction, harness.',
+    text='Theorems (Prop_C17.v, Prop_C17_variants.v, Prop_C17_pipeline.v): split_T is a right inverse of joining with -T for every argv; in the '
+         'model cnfgen_main, a chain -T t1 ... -T tk equals the left-to-right fold of the transformation models over the family model (induction '
+         'on the number of chunks), whatever is written reads back as exactly that formula with all literals in range, every argv yields output, '
+         'a clean error or "outside the modelled grammar", and each variant option (php --functional/--onto, op variants and --plant, output '
+         'format, quiet) selects exactly that variant. Tied to the code byte for byte on generated command lines inside the grammar (valid and '
+         'malformed), and, for everything outside it (files, save, random graphs and seeds, shuffle, compression, pbgen, kthlist2pebbling), by the '
+         'differential run: command line = documented library generator on the same numbers and the same graphs (the graph stored by save, wherever '
+         'save stands), chain = transformation functions left to right, seeded command line = one seeded library session.',
+    note='Outside the grammar of Pipeline.v argparse is not modelled (abbreviated options, = forms, help). Trusted: the table in harness/c17.py that '
+         'pairs each command line with its documented library call (written from the documentation); Coq kernel, extraction, harness.',
     design_ref='5/C17',
 )
 RULE = ('abstract commands sampled per sub-command (every sub-command, every variant option subset, numbers 0..5, random small graphs written to '
